@@ -11,8 +11,8 @@
                              create_announce_peer_response (bodies only)
    Definitions only (proofs are in Proofs*.v).  Ids are N < 2^160, an IPv4 address is the number
    a*2^24+b*2^16+c*2^8+d, time is in seconds.  SHA-1 is a Section variable. *)
-From Coq Require Import List NArith Bool.
-From LTV Require Import Params_gen.
+From Coq Require Import List NArith ZArith Bool.
+From LTV.C15 Require Import ParamsGen.
 Import ListNotations.
 Local Open Scope N_scope.
 
@@ -400,10 +400,14 @@ Fixpoint replace_nth {A} (i : nat) (x : A) (l : list A) : list A :=
   | y :: r, S j => y :: replace_nth j x r
   end.
 
+(* htons on the little-endian host: the stored uint16 FIELD whose memory bytes are hi, lo *)
+Definition htons16 (p : N) : N := (p mod 256) * 256 + (p / 256) mod 256.
+
 Definition add_peer (t : N) (ip port : N) (l : list peer) : list peer :=
-  let p := port16 port in
-  if p =? 0 then l
-  else match update_peer ip p (t mod u32) l with
+  let p16 := port16 port in
+  if p16 =? 0 then l
+  else let p := htons16 p16 in
+       match update_peer ip p (t mod u32) l with
        | Some l' => l'
        | None =>
          if lenN l <? Params.dht_tracker_max_size then l ++ [mkPeer ip p (t mod u32)]
@@ -443,7 +447,28 @@ Fixpoint upd_tracker (ih : N) (f : list peer -> list peer) (tr : list (N * list 
   end.
 
 (* ---------------------------------------------------------------- tokens, housekeeping, ops *)
+(* A datagram after static_map_read_bencode: the keys DhtServer looks at.  A "*S" key holds a
+   string or nothing (a value of another type is left empty by the reader); a.port is a full object. *)
+Inductive pval := PInt (z : Z) | POther | PAbsent.
+Record dmsg := mkMsg { m_t : option (list N); m_y : option (list N); m_q : option (list N);
+                       m_id : option (list N); m_target : option (list N); m_ih : option (list N);
+                       m_token : option (list N); m_port : pval }.
+
+Inductive derr :=
+| E_no_tid | E_tid_long | E_no_type | E_unsupported_type | E_bad_id | E_id_short | E_own_id
+| E_unknown_type | E_malformed | E_target_short | E_no_nodes | E_ih_short | E_no_peers_nodes
+| E_token | E_unknown_query.
+
+(* what goes back to the source address: nothing, a "y":"e" message, or a "y":"r" message whose
+   r.id is the own id *)
+Inductive reply :=
+| RpNone
+| RpErr (t : option (list N)) (e : derr)
+| RpOk (t : list N) (tok : option (list N)) (nodes : option (list centry)) (vals : option (list (list N))).
+
 Inductive op :=
+| ODgram (ip rnd : N) (m : dmsg)
+| OGarbage (ip : N)
 | OTick (dt : N)
 | OQueried (id ip port : N)
 | OReplied (id ip port : N)
@@ -466,7 +491,8 @@ Inductive res :=
 | Rerr (code : N)                 (* 1 Token invalid.  2 No peers nor nodes  3 No nodes *)
 | Rnodes (l : list centry)
 | Rpeers (tok : list N) (vals : list (list N))
-| Rpnodes (tok : list N) (l : list centry).
+| Rpnodes (tok : list N) (l : list centry)
+| Rdg (r : reply).
 
 Fixpoint bytes_eqb (a b : list N) : bool :=
   match a, b with
@@ -500,9 +526,114 @@ Definition housekeeping (s : state) (secret : N) : state :=
                    (map (fun e => (fst e, prune (now s) (snd e))) (trackers s)) in
   mkState (own s) (now s) secret (cur s) (mkTable bs (tchain (tab s)) (town (tab s))) tr (err s).
 
+(* ---------------------------------------------------------------- DhtServer::event_read / process_query *)
+Definition be_to_N (l : list N) : N := fold_left (fun acc b => acc * 256 + b) l 0.
+Definition s_ping : list N := [112; 105; 110; 103].
+Definition s_find_node : list N := [102; 105; 110; 100; 95; 110; 111; 100; 101].
+Definition s_get_peers : list N := [103; 101; 116; 95; 112; 101; 101; 114; 115].
+Definition s_announce_peer : list N := [97; 110; 110; 111; 117; 110; 99; 101; 95; 112; 101; 101; 114].
+Definition hs_len : N := Params.dht_hash_string_size.
+
+(* create_error echoes t only if it is a string shorter than 67 bytes *)
+Definition err_t (t : option (list N)) : option (list N) :=
+  match t with Some x => if lenN x <? 67 then Some x else None | None => None end.
+
+(* body of process_query up to (not including) node_queried / create_response:
+   inl error, or inr (state, token, nodes, values) *)
+Definition query_body (s : state) (ip rnd : N) (q : list N) (m : dmsg)
+  : state * (derr + (option (list N) * option (list centry) * option (list (list N)))) :=
+  if bytes_eqb q s_find_node then
+    match m_target m with
+    | None => (s, inl E_malformed)
+    | Some tg =>
+      if lenN tg <? hs_len then (s, inl E_target_short)
+      else let (t', c) := closest_nodes (tab s) (be_to_N (firstn idbytes tg)) in
+           match c with
+           | [] => (with_tab s t', inl E_no_nodes)
+           | _ => (with_tab s t', inr (None, Some c, None))
+           end
+    end
+  else if bytes_eqb q s_get_peers then
+    let tok := token_for (cur s) ip in
+    match m_ih m with
+    | None => (s, inl E_malformed)
+    | Some h =>
+      if lenN h <? hs_len then (s, inl E_ih_short)
+      else let ih := be_to_N (firstn idbytes h) in
+           match get_tracker ih (trackers s) with
+           | Some (p :: l) => (s, inr (Some tok, None, Some (get_peers rnd (p :: l))))
+           | _ => let (t', c) := closest_nodes (tab s) ih in
+                  match c with
+                  | [] => (with_tab s t', inl E_no_peers_nodes)
+                  | _ => (with_tab s t', inr (Some tok, Some c, None))
+                  end
+           end
+    end
+  else if bytes_eqb q s_announce_peer then
+    match m_ih m with
+    | None => (s, inl E_malformed)
+    | Some h =>
+      if lenN h <? hs_len then (s, inl E_ih_short)
+      else match m_token m with
+           | None => (s, inl E_malformed)
+           | Some tk =>
+             if negb (token_valid s tk ip) then (s, inl E_token)
+             else let ih := be_to_N (firstn idbytes h) in
+                  (* get_tracker(create = true) happens before a.port is looked at *)
+                  match m_port m with
+                  | PInt z => (with_trackers s (upd_tracker ih (add_peer (now s) ip (Z.to_N (z mod 65536))) (trackers s)),
+                               inr (None, None, None))
+                  | _ => (with_trackers s (upd_tracker ih (fun l => l) (trackers s)), inl E_malformed)
+                  end
+           end
+    end
+  else if bytes_eqb q s_ping then (s, inr (None, None, None))
+  else (s, inl E_unknown_query).
+
+(* one datagram with y <> "r","e" from source address ip *)
+Definition dgram (s : state) (ip rnd : N) (m : dmsg) : state * reply :=
+  match m_t m with
+  | None => (s, RpErr None E_no_tid)
+  | Some t =>
+    if 20 <? lenN t then (s, RpErr (err_t (m_t m)) E_tid_long) else
+    match m_y m with
+    | None => (s, RpErr (Some t) E_no_type)
+    | Some y =>
+      match y with
+      | [ty] =>
+        if ty =? 113 then  (* 'q' *)
+          match m_id m with
+          | None => (s, RpErr (Some t) E_bad_id)
+          | Some idb =>
+            if lenN idb <? hs_len then (s, RpErr (Some t) E_id_short)
+            else let id := be_to_N (firstn idbytes idb) in
+                 if id =? own s then (s, RpErr (Some t) E_own_id)
+                 else match m_q m with
+                      | None => (s, RpErr (Some t) E_malformed)
+                      | Some q =>
+                        match query_body s ip rnd q m with
+                        | (s1, inl e) => (s1, RpErr (Some t) e)
+                        | (s1, inr (tok, nodes, vals)) =>
+                          (fst (node_queried s1 id ip), RpOk t tok nodes vals)
+                        end
+                      end
+          end
+        else (s, RpErr (Some t) E_unknown_type)
+      | _ => (s, RpErr (Some t) E_unsupported_type)
+      end
+    end
+  end.
+
 Definition step (s : state) (o : op) : state * res :=
   if err s then (s, Rskip) else
   match o with
+  | ODgram ip rnd m =>
+    match m_y m with
+    | Some [ty] => if (ty =? 114) || (ty =? 101) then (s, Rskip)   (* replies / errors: not modelled *)
+                   else let (s', r) := dgram s ip rnd m in (s', Rdg r)
+    | _ => let (s', r) := dgram s ip rnd m in (s', Rdg r)
+    end
+  | OGarbage ip => (s, Rdg RpNone)
   | OTick dt => (mkState (own s) (now s + dt) (cur s) (prev s) (tab s) (trackers s) (err s), Rnone)
   | OQueried id ip port =>
     if id =? own s then (s, Rskip) else let (s', r) := node_queried s id ip in (s', Rbool r)
